@@ -452,6 +452,19 @@ impl<'a> Cx<'a> {
                         }
                     }
                     "<<" | ">>" => {
+                        if ta.untyped && tb.untyped {
+                            // constant shift of an untyped constant stays an untyped constant
+                            let (x, y) = (ta.e.konst.unwrap(), tb.e.konst.unwrap());
+                            if !(0..64).contains(&y) {
+                                return unknown("constant shift count out of range");
+                            }
+                            let v = if op == "<<" { x.checked_shl(y as u32).filter(|v| (v >> y) == x) } else { Some(x >> y) };
+                            let Some(v) = v else { return unknown("constant shift overflows") };
+                            if v > u64::MAX as i128 || v < i64::MIN as i128 {
+                                return unknown("constant exceeds 64 bits");
+                            }
+                            return Ok(Typed { e: Expr::constant(I64, v).with_konst(v), untyped: true });
+                        }
                         // left operand decides the type
                         let cnt = self.settle_shift_count(tb)?;
                         let left = if ta.untyped {
